@@ -34,8 +34,26 @@ var ckOvf bool
 var ckRt bool
 
 func ck_rt(r any) {
+	if _, ok := r.(tooLong); ok {
+		panic(r)
+	}
 	if _, ok := r.(runtime.Error); ok {
 		ckRt = true
+	}
+}
+
+// ck_step bounds the work of one call (loop iterations + function entries) so that the batch terminates
+// and the VM's instruction limit is never the reason of a difference.
+type tooLong struct{}
+
+var ckSteps int
+var ckLong bool
+
+func ck_step() {
+	ckSteps++
+	if ckSteps > 4000 {
+		ckLong = true
+		panic(tooLong{})
 	}
 }
 
@@ -124,11 +142,18 @@ func main() {
 	defer out.Flush()
 	for _, e := range table {
 		for ti, t := range e.tuples {
-			rp := call(e.resetP, e.fP, t)
-			rc := rp
-			ckOvf, ckRt = false, false
+			ckOvf, ckRt, ckLong, ckSteps = false, false, false, 0
+			rc := ""
 			if e.fC != nil {
 				rc = call(e.resetC, e.fC, t)
+			}
+			if ckLong {
+				fmt.Fprintf(out, "%s %d 4 long | long\n", e.tag, ti)
+				continue
+			}
+			rp := call(e.resetP, e.fP, t)
+			if e.fC == nil {
+				rc = rp
 			}
 			ov := 0
 			if ckOvf {
@@ -144,6 +169,7 @@ func main() {
 `
 
 type goRes struct {
+	long    bool // the step budget was exceeded: tuple not compared
 	ovf     bool
 	rtrec   bool // a run-time error was recovered on the Go side
 	plain   string // "ok <canon>" or "panic"
@@ -299,7 +325,7 @@ func runBatch(dir string, progs []*Prog) (map[string]goRes, map[int]string, erro
 			if len(fs) != 5 {
 				continue
 			}
-			res[fs[0]+" "+fs[1]+" "+fs[2]] = goRes{ovf: fs[3] == "1" || fs[3] == "3", rtrec: fs[3] == "2" || fs[3] == "3", plain: fs[4], checked: parts[1]}
+			res[fs[0]+" "+fs[1]+" "+fs[2]] = goRes{long: fs[3] == "4", ovf: fs[3] == "1" || fs[3] == "3", rtrec: fs[3] == "2" || fs[3] == "3", plain: fs[4], checked: parts[1]}
 		}
 		return res, dropped, nil
 	}
